@@ -117,39 +117,64 @@ type Yield struct {
 	Kind   string `json:"kind,omitempty"`   // gosched (default) | sleep
 }
 
-// Raw: a scripted raw peer.
+// Raw: a scripted raw peer speaking the frame protocol directly against a real endpoint.
 type Raw struct {
-	Role     string     `json:"role"` // client (raw client vs real server) | server (raw server vs real client)
-	Negotiate bool      `json:"negotiate"`
-	WaitSettings bool   `json:"wait_settings,omitempty"`
-	Frames   []RawFrame `json:"frames"`
-	// server role: settings the raw server presents
-	Settings *RawSettings `json:"settings,omitempty"`
+	Role         string       `json:"role"`                    // client (raw network client vs the real tunnel server) | server (raw network server vs the real tunnel client)
+	Negotiate    bool         `json:"negotiate"`               // the raw peer advertises negotiation (request header / response header)
+	WaitSettings bool         `json:"wait_settings,omitempty"` // client role: send nothing before the settings frame has arrived
+	AutoCredit   bool         `json:"auto_credit,omitempty"`   // the raw peer returns credit for the data it receives, like a conforming peer
+	Frames       []RawFrame   `json:"frames,omitempty"`        // client role: the frames to send, in order
+	Settings     *RawSettings `json:"settings,omitempty"`      // server role: what is presented as settings
+	Replies      []RawReply   `json:"replies,omitempty"`       // server role: per-RPC reply programs
+	Extra        []RawFrame   `json:"extra,omitempty"`         // server role: unsolicited frames, sent in order by their own actor
+	Dev          []string     `json:"dev,omitempty"`           // names of the deviations applied (labels, and input of the validator model)
+	HangUpErr    bool         `json:"hangup_err,omitempty"`    // server role: the raw server ends the carrier with an error status instead of OK
+	Expect       []RawExpect  `json:"expect,omitempty"`        // what the generator knows about the outcome of each logical RPC
+	TunnelLevel  string       `json:"tunnel_level,omitempty"`  // name of the tunnel-level violation in the script ("" = none, "?" = statement is silent)
+}
+
+// RawExpect: expected outcome of one logical RPC of a raw script.
+type RawExpect struct {
+	Tag   int    `json:"tag"`
+	Clean bool   `json:"clean"`          // the RPC's frames are exactly the conforming sequence: it must complete with its scripted results
+	Code  int    `json:"code,omitempty"` // dirty RPC: the status code the statement (or a sibling property) names; 0 = only crash/hang/leak clauses
+	Why   string `json:"why,omitempty"`
 }
 
 type RawSettings struct {
-	Omit      bool    `json:"omit,omitempty"`
-	ID        int64   `json:"id"`
-	Revisions []int32 `json:"revisions"`
-	Window    uint32  `json:"window"`
-	WrongKind bool    `json:"wrong_kind,omitempty"`
-	EndFirst  bool    `json:"end_first,omitempty"`
+	Omit      bool    `json:"omit,omitempty"`       // send no settings frame at all (only sound together with EndFirst or !Negotiate)
+	ID        int64   `json:"id"`                   // stream id of the settings frame (conforming: -1)
+	Revisions []int32 `json:"revisions"`            // supported_protocol_revisions
+	Window    uint32  `json:"window"`               // initial_window_size
+	WrongKind string  `json:"wrong_kind,omitempty"` // send this kind of frame first instead of settings
+	EndFirst  bool    `json:"end_first,omitempty"`  // end the stream before sending settings
+	Twice     bool    `json:"twice,omitempty"`      // send the settings frame a second time
+}
+
+// RawReply: what the raw server sends for the RPC with the given tag, one frame per scheduler step, once the RPC's new_stream has arrived.
+type RawReply struct {
+	Tag    int        `json:"tag"`
+	Frames []RawFrame `json:"frames"`
 }
 
 type RawFrame struct {
-	ID       int64  `json:"id"`
-	Kind     string `json:"kind"` // new_stream msg more half_close cancel window_update nil | headers close settings
-	Method   string `json:"method,omitempty"`
-	Rev      int32  `json:"rev,omitempty"`
-	Window   uint32 `json:"window,omitempty"`
-	Size     uint32 `json:"size,omitempty"`
-	DataLen  int    `json:"data_len,omitempty"`
-	Payload  int    `json:"payload,omitempty"` // which logical message the data belongs to (for well-formed content)
-	Off      int    `json:"off,omitempty"`
-	Code     int32  `json:"code,omitempty"`
+	ID       int64               `json:"id,omitempty"`       // client role: the stream id; server role: used only with ForceID
+	ForceID  bool                `json:"force_id,omitempty"` // server role: use ID instead of the id the client chose for the RPC
+	Kind     string              `json:"kind"`               // new_stream msg more half_close cancel window_update nil | settings headers close
+	Method   string              `json:"method,omitempty"`
+	Rev      int32               `json:"rev,omitempty"`
+	Window   uint32              `json:"window,omitempty"`   // new_stream: initial_window_size; settings: window
+	Size     uint32              `json:"size,omitempty"`     // msg: declared size; window_update: credit
+	DataLen  int                 `json:"data_len,omitempty"` // msg/more: bytes of data in this frame
+	Msg      int                 `json:"msg,omitempty"`      // msg/more: index of the logical message the data is taken from
+	Off      int                 `json:"off,omitempty"`      // msg/more: offset into the serialized logical message
+	Zeros    bool                `json:"zeros,omitempty"`    // msg/more: data is zero bytes rather than a slice of a logical message
+	Code     int32               `json:"code,omitempty"`     // close: status code
+	Text     string              `json:"text,omitempty"`     // close: status message
 	MD       map[string][]string `json:"md,omitempty"`
-	Tag      int    `json:"tag,omitempty"` // logical RPC this frame belongs to
-	WaitStep bool   `json:"wait,omitempty"`
+	Tag      int                 `json:"tag,omitempty"`      // logical RPC this frame belongs to (payload generation, x-verif-rpc tag); -1 = none
+	NoWindow bool                `json:"no_window,omitempty"` // server role: send even if the client's window does not allow it
+	Revs     []int32             `json:"revs,omitempty"`     // settings frame sent as an ordinary (late) frame
 }
 
 // RegOp: one operation of a registry history (C12).
